@@ -9,7 +9,8 @@ pub fn mixed(cs: u32) -> Vec<Op> {
     let s = |x: &str| x.to_string();
     let mut a = Vec::new();
     // namespace
-    for p in ["a", "long-name-1.txt", "d/a", "x:y"] {
+    // "exactly13unit" fills its long-name slot completely (no terminator)
+    for p in ["a", "long-name-1.txt", "d/a", "x:y", "exactly13unit"] {
         a.push(Op::CreateFile { base: r, path: s(p), keep: None });
     }
     a.push(Op::CreateFile { base: r, path: "m".repeat(100), keep: None });
@@ -33,6 +34,7 @@ pub fn mixed(cs: u32) -> Vec<Op> {
         a.push(Op::Write { h, len: 1 });
         a.push(Op::WriteAll { h, len: 2 * cs + 1 });
         a.push(Op::Seek { h, pos: SeekSpec::Start(cs as u64) });
+        a.push(Op::Seek { h, pos: SeekSpec::Start(cs as u64 + 1) });
         a.push(Op::Seek { h, pos: SeekSpec::Start(0) });
         a.push(Op::Truncate { h });
         a.push(Op::Flush { h });
